@@ -132,6 +132,7 @@ def items(tier: str, seed: int):
         out.append({"kind": "lib-subsets", "tree": t, "n": n})
         for block in chunks(load.ALL_COMMANDS, 4):
             out.append({"kind": "cli", "tree": t, "n": n, "cmds": block, "all_subsets": tier == "thorough"})
+    out.append({"kind": "carriers", "tree": 0, "n": n})
     return out
 
 
@@ -167,8 +168,71 @@ def _diff_fail(acc, sig, case, want, got, note=""):
         acc.fail({**sig, "rule": rid, "mode": mode}, case, [list(t) for t in m][:3], [list(t) for t in e][:3], note)
 
 
+CARRIER_FILES = {
+    "lim.py": "def lim(a, b):\n    if a:\n        for x in b:\n            print(x, 3621)\n    return 3622\n",
+    "sub/deep.py": "def deep(a, b):\n    if a:\n        while b:\n            b -= 3623\n    return b\n",
+    "lim.ts": "export function lim(a: boolean, b: number[]): number {\n  if (a) {\n    for (const x of b) {\n      use(x, 3624);\n    }\n  }\n  return 3625;\n}\n",
+}
+CARRIER_CFG = {"nesting": {"max_nesting_depth": 2}, "magic-numbers": {"allowed_numbers": [3621, 3624], "max_small_integer": 3}}
+
+
+def _toml(cfg):
+    out = []
+    for sec, kv in cfg.items():
+        out.append(f'[tool.thailint.{sec}]' if "-" not in sec else f'[tool.thailint."{sec}"]')
+        out += [f"{k} = {__import__('json').dumps(v)}" for k, v in kv.items()]
+        out.append("")
+    return "\n".join(out)
+
+
+def _carriers(acc):
+    """The same settings carried by each auto-discovered configuration file in turn: the command
+    line and the library must read the same carrier and so report the same violations."""
+    from src.api import Linter  # noqa: PLC0415
+
+    carriers = {
+        ".thailint.yaml": yaml_dump(CARRIER_CFG),
+        ".thailint.json": __import__("json").dumps(CARRIER_CFG),
+        "pyproject.toml": '[project]\nname = "proj"\nversion = "0"\n\n' + _toml(CARRIER_CFG),
+    }
+    names = sorted(CARRIER_FILES)
+    ref = {}
+    for cname, text in carriers.items():
+        root = project({**CARRIER_FILES, cname: text}, name="proj")
+        for cmd in ("nesting", "magic-numbers"):
+            prefix = load.COMMAND_PREFIX[cmd][0]
+            for target in [*names, "."]:
+                r = obs.cli_json([cmd, target], root)
+                cli = [t for t in _nm(obs.norm(r["violations"] or [], root, root), root) if t[1] in CARRIER_FILES]
+                env.reset_caches()
+                with obs.cwd(root):
+                    lib = [t for t in _nm(obs.norm([obs.vdict(v) for v in Linter(project_root=root).lint(root / target if target != "." else root) if v.rule_id.startswith(prefix)], root, root), root) if t[1] in CARRIER_FILES]
+                acc.case()
+                acc.edge()
+                acc.valid()
+                if cli or lib:
+                    acc.nt(("carrier", cname, cmd, target))
+                acc.outcome((cname, cmd, target, len(cli), len(lib)))
+                _diff_fail(acc, {"edge": "library-vs-cli", "carrier": cname, "command": cmd}, {"tree": "carriers", "carrier": cname, "cmd": cmd, "target": target}, cli, lib, f"settings carried by {cname}: Linter.lint vs CLI")
+                key = (cmd, target)
+                if key in ref:
+                    acc.edge()
+                    _diff_fail(acc, {"edge": "carrier-vs-carrier", "carrier": cname, "command": cmd, "entry": "cli"}, {"tree": "carriers", "carrier": cname, "cmd": cmd, "target": target}, ref[key], cli, "the same settings carried by another auto-discovered file")
+                else:
+                    ref[key] = cli
+        remove(root)
+    # the settings differ from the defaults in both directions, so a carrier that is not read shows
+    strict = [t for t in ref[("nesting", ".")]]
+    if not strict:
+        raise RuntimeError("carrier item is vacuous: max_nesting_depth 2 produced no nesting finding")
+    acc.sample({"carriers": list(carriers), "commands": ["nesting", "magic-numbers"], "targets": [*names, "."]})
+
+
 def run_item(item) -> Acc:
     acc = Acc()
+    if item["kind"] == "carriers":
+        _carriers(acc)
+        return acc
     files, cfg = _tree(item)
     root = project({**files, ".thailint.yaml": yaml_dump(cfg)}, name="build/proj" if item["tree"] == -1 else "proj")
     names = sorted(n for n in files if not n.startswith((".thailint", "alt/")))
@@ -317,9 +381,15 @@ def run_item(item) -> Acc:
 
 
 def replay_case(case) -> list[dict]:
-    n = 8 if case["tree"] >= 3 else 3
+    n = 8 if isinstance(case["tree"], int) and case["tree"] >= 3 else 3
     if case.get("target") == "<absolute project dir>":
         case = {**case, "target": "<absolute project dir>"}
+    if case.get("tree") == "carriers":
+        a = run_item({"kind": "carriers", "tree": 0, "n": n})
+        out = [f for f in a.failures if f["case"] == case]
+        for f in out:
+            print(f["signature"], "\n  only in CLI/reference:", f["expected"], "\n  only in library/this carrier:", f["observed"])
+        return out
     if "cmd" in case:
         a = run_item({"kind": "cli", "tree": case["tree"], "n": n, "cmds": [case["cmd"]], "all_subsets": True})
     else:
